@@ -11,18 +11,35 @@ import (
 	"mambasim/driver"
 )
 
-type model struct{ label []int }
+// model: a label per element and the member list of every label; union relabels the
+// smaller side (so that the deep-tree cases with 2^17 elements stay cheap).
+type model struct {
+	label   []int
+	members map[int][]int
+}
+
+func newModel(n int) *model {
+	m := &model{label: make([]int, n), members: map[int][]int{}}
+	for i := range m.label {
+		m.label[i] = i
+		m.members[i] = []int{i}
+	}
+	return m
+}
 
 func (m *model) union(x, y int) {
 	a, b := m.label[x], m.label[y]
 	if a == b {
 		return
 	}
-	for i := range m.label {
-		if m.label[i] == b {
-			m.label[i] = a
-		}
+	if len(m.members[a]) < len(m.members[b]) {
+		a, b = b, a
 	}
+	for _, i := range m.members[b] {
+		m.label[i] = a
+	}
+	m.members[a] = append(m.members[a], m.members[b]...)
+	delete(m.members, b)
 }
 
 func (m *model) sets() [][]int {
@@ -48,7 +65,12 @@ func depth(ds disjoint.Set, x int) int {
 	return d
 }
 
-func budget(n int) int64 { return int64(2000 + 200*n*n) }
+func budget(n int) int64 {
+	if n > 1024 {
+		return int64(1_000_000 + 400*n)
+	}
+	return int64(2000 + 200*n*n)
+}
 
 // checkPartition: same representative <=> same model label.
 func checkPartition(r *driver.Run, ds *disjoint.Set, m *model, live bool, after string) {
@@ -60,7 +82,16 @@ func checkPartition(r *driver.Run, ds *disjoint.Set, m *model, live bool, after 
 		target = &cp
 	}
 	reps := make([]int, n)
-	for i := 0; i < n; i++ {
+	// deepest elements first: lookups in index order compress the ancestors of deep
+	// elements before those are asked, which would hide a wrong answer for a long path
+	order := make([]int, n)
+	dep := make([]int, n)
+	for i := range order {
+		order[i] = i
+		dep[i] = depth(*target, i)
+	}
+	sort.SliceStable(order, func(a, b int) bool { return dep[order[a]] > dep[order[b]] })
+	for _, i := range order {
 		i := i
 		r.Must(fmt.Sprintf("Find(%d)", i), budget(n), func() { reps[i] = target.Find(i) })
 		if reps[i] < 0 || reps[i] >= n {
@@ -86,6 +117,19 @@ func checkPartition(r *driver.Run, ds *disjoint.Set, m *model, live bool, after 
 	r.ObsInts(reps)
 }
 
+// checkFixedPoint: a representative represents itself. x and rep are connected, so they
+// must have the same representative, i.e. Find(rep) == rep (evaluated on a copy so that the
+// live structure is not disturbed).
+func checkFixedPoint(r *driver.Run, ds *disjoint.Set, n, x, rep int, what string) {
+	cp := make(disjoint.Set, len(*ds))
+	copy(cp, *ds)
+	var again int
+	r.Must("Find(representative)", budget(n), func() { again = cp.Find(rep) })
+	if again != rep {
+		r.Fail("partition", "connected elements have different representatives", "%s = %d, but Find(%d) = %d: %d and %d are connected and have different representatives", what, rep, rep, again, x, rep)
+	}
+}
+
 func eqSets(a, b [][]int) bool {
 	if len(a) != len(b) {
 		return false
@@ -103,10 +147,15 @@ func eqSets(a, b [][]int) bool {
 	return true
 }
 
+var shortBufs bool
+
 func mkbuf(r *driver.Run, n int) []int {
-	// capacity >= n (the documented requirement is only that buf can hold the path),
-	// arbitrary length and garbage contents
+	// capacity >= n in most runs; in 'short buffer' runs any capacity >= 1 (the
+	// implementation grows the buffer as needed); arbitrary length and garbage contents
 	c := n + r.T.Draw(3)
+	if shortBufs {
+		c = 1 + r.T.Draw(n+2)
+	}
 	if c < 1 {
 		c = 1
 	}
@@ -117,7 +166,81 @@ func mkbuf(r *driver.Run, n int) []int {
 	return b[:r.T.Draw(c+1)]
 }
 
+var deepSizes = []int{4, 6, 8, 10, 12, 14, 17}
+
+// runDeep: a perfectly balanced union-by-rank tree on 2^k elements (depth k, the
+// deepest shape the structure can reach), then lookups and unions aimed at its deepest
+// elements.
+func runDeep(r *driver.Run, k int) {
+	t := r.T
+	n := 1 << uint(k)
+	shortBufs = false
+	r.Logf("deep tree: n=2^%d=%d, balanced merges of equal-rank roots", k, n)
+	var ds disjoint.Set
+	r.Must("New", budget(n), func() { ds = disjoint.New(n) })
+	m := newModel(n)
+	flip := t.Draw(2)
+	for step := 1; step < n; step *= 2 {
+		for i := 0; i+step < n; i += 2 * step {
+			// both arguments are roots at this point: no compression happens while building
+			x, y := i, i+step
+			if (i/step+flip)%2 == 1 {
+				x, y = y, x
+			}
+			r.Must("Union", budget(n), func() { ds.Union(x, y) })
+			m.union(x, y)
+		}
+	}
+	maxD, deepest := 0, 0
+	for i := 0; i < n; i++ {
+		if d := depth(ds, i); d > maxD {
+			maxD, deepest = d, i
+		}
+	}
+	r.Logf("built: maximum depth %d at element %d", maxD, deepest)
+	if maxD >= 3 {
+		r.Probe("find-compresses-chain-of-3-or-more")
+	}
+	r.Count("deep_tree_max_depth_"+fmt.Sprint(maxD), 1)
+	for op := 0; op < 6; op++ {
+		x := deepest
+		if op > 0 {
+			// another deep element
+			best := -1
+			for tries := 0; tries < 64; tries++ {
+				c := t.Draw(n)
+				if best < 0 || depth(ds, c) > depth(ds, best) {
+					best = c
+				}
+			}
+			x = best
+		}
+		var got int
+		var what string
+		if op%2 == 0 {
+			what = fmt.Sprintf("Find(%d) [depth %d]", x, depth(ds, x))
+			r.Must(what, budget(n), func() { got = ds.Find(x) })
+		} else {
+			buf := mkbuf(r, n)
+			what = fmt.Sprintf("FindBuffered(%d, buf[len %d cap %d]) [depth %d]", x, len(buf), cap(buf), depth(ds, x))
+			r.Must(what, budget(n), func() { got = ds.FindBuffered(x, buf) })
+		}
+		r.Logf("%s = %d", what, got)
+		if got < 0 || got >= n || m.label[got] != m.label[x] {
+			r.Fail("representative", "representative outside its set", "%s = %d, which is not the representative of the set of %d (deep tree on %d elements)", what, got, x, n)
+		}
+		checkFixedPoint(r, &ds, n, x, got, what)
+		checkPartition(r, &ds, m, op%3 == 2, what)
+	}
+	r.Nontrivial = maxD >= 3
+	r.Obs(uint64(k), uint64(maxD))
+}
+
 func runOne(r *driver.Run) {
+	if r.Case >= 0 {
+		runDeep(r, deepSizes[r.Case%len(deepSizes)])
+		return
+	}
 	t := r.T
 	var n int
 	switch t.Draw(4) {
@@ -135,16 +258,14 @@ func runOne(r *driver.Run) {
 	w := []int{1 + t.Draw(8), 1 + t.Draw(8), t.Draw(6), t.Draw(6), t.Draw(3), t.Draw(3), t.Draw(3), t.Draw(3)}
 	liveCheck := t.Draw(3) // 0: always on a copy, 1: always live, 2: tape decides each time
 	pairing := t.Chance(1, 2)
-	r.Logf("config n=%d ops=%d weights=%v liveCheck=%d pairing-phase=%v", n, nops, w, liveCheck, pairing)
+	shortBufs = t.Chance(1, 3)
+	r.Logf("config n=%d ops=%d weights=%v liveCheck=%d pairing-phase=%v short-buffers=%v", n, nops, w, liveCheck, pairing, shortBufs)
 	var ds disjoint.Set
 	r.Must("New", budget(n), func() { ds = disjoint.New(n) })
 	if len(ds) != n {
 		r.Fail("new", "New length", "New(%d) has %d elements", n, len(ds))
 	}
-	m := &model{label: make([]int, n)}
-	for i := range m.label {
-		m.label[i] = i
-	}
+	m := newModel(n)
 	checkPartition(r, &ds, m, false, "New")
 	unions, deep := 0, 0
 	if pairing && n >= 4 {
@@ -209,6 +330,7 @@ func runOne(r *driver.Run) {
 			if got < 0 || got >= n || m.label[got] != m.label[x] {
 				r.Fail("representative", "representative outside its set", "%s = %d, which is not in the set of %d (model sets %v)", what, got, x, m.sets())
 			}
+			checkFixedPoint(r, &ds, n, x, got, what)
 			r.Obs(uint64(got))
 		case 4:
 			what = "Sets()"
@@ -275,10 +397,10 @@ func main() {
 		Property: "C18",
 		Engine:   "dsu-ops",
 		Level:    "exploration",
-		Rule: "a case is one seeded history (n <= 64, up to 80 operations after an optional pairing phase, per-run operation mix) on one disjoint.Set; after EVERY operation all n representatives are recomputed (on a copy or on the live value, tape's choice) and must induce exactly the model's partition. " +
+		Rule: "enumerated cases: perfectly balanced union-by-rank trees on 2^k elements for k in {4,6,8,10,12,14,17} (depth k, the deepest shape reachable) followed by lookups aimed at the deepest elements; random case: one seeded history (n <= 64, up to 80 operations after an optional pairing phase, per-run operation mix) on one disjoint.Set; after EVERY operation all n representatives are recomputed (on a copy or on the live value, tape's choice) and must induce exactly the model's partition. " +
 			"Non-trivial = at least two unions and at least one Find/FindBuffered issued on an element at parent-depth >= 2 (a chain of >= 3 nodes, the only shape path compression rewrites); distinct = distinct fingerprints of the observed representative vectors.",
 		Assumptions: []string{
-			"buffers passed to the *Buffered methods have capacity >= n (arbitrary length and contents)",
+			"buffers passed to the *Buffered methods have capacity >= n in two thirds of the runs and any capacity >= 1 in the others (arbitrary length and contents)",
 			"elements passed are in 0..n-1",
 			"no fault or schedule exists in this code: the simulator contributes seeded histories, the lock-step model, logical step budgets (a parent cycle is a violation, not a hang), minimisation and replay",
 		},
@@ -286,9 +408,9 @@ func main() {
 		Stubs: []string{"none (the model is an oracle, not a stub)"},
 		Plan: func(tier string) driver.Plan {
 			if tier == "thorough" {
-				return driver.Plan{Random: 3000000, WallLimit: 20 * time.Minute}
+				return driver.Plan{Enum: len(deepSizes), Random: 3000000, WallLimit: 20 * time.Minute}
 			}
-			return driver.Plan{Random: 300000, WallLimit: 5 * time.Minute}
+			return driver.Plan{Enum: len(deepSizes), Random: 300000, WallLimit: 5 * time.Minute}
 		},
 		RunOne: runOne,
 	})
